@@ -1022,3 +1022,100 @@ pub mod extend_range {
         prepare_view as leaf_prepare_view, run_leaf_stage, LeafStageOut,
     };
 }
+
+// The open path (`Nomt::open`, `Store::open`, `compute_root_node`, `Meta`, `ht_file`): the manifest code and
+// `ht_file::open` on caller-supplied bytes / files, the parameters an opened store runs with, and the inputs and the
+// output of the real `compute_root_node` on an opened handle.
+pub mod openpath {
+    pub use crate::bitbox::verif_ht as ht;
+    pub use crate::store::verif_open::{
+        meta_create_new, meta_decode_validate, meta_encode, meta_read_validate, MetaFields,
+        OpenedParams,
+    };
+    use crate::{beatree, HashAlgorithm, Nomt};
+    use nomt_core::page_id::ROOT_PAGE_ID;
+
+    /// What the B-tree iterator started at the all-zero key yields first.
+    #[derive(Debug, Clone, PartialEq, Eq)]
+    pub enum FirstItem {
+        /// `None`: the B-tree is empty.
+        Nothing,
+        /// `IterOutput::Item`: key, value length, `hash_value(value)`.
+        Inline([u8; 32], usize, [u8; 32]),
+        /// `IterOutput::OverflowItem`: key, the value hash STORED in the cell, the cell's length.
+        Overflow([u8; 32], [u8; 32], usize),
+    }
+
+    /// Inputs and output of `compute_root_node` on an opened handle.
+    #[derive(Debug, Clone, PartialEq, Eq)]
+    pub struct RootProbe {
+        /// `page_cache.get(ROOT_PAGE_ID)`: the two top slots and the bucket.
+        pub root_page: Option<([u8; 32], [u8; 32], u64)>,
+        /// how often the iterator answered `Blocked` before its first item / its end
+        pub blocked: usize,
+        pub first: FirstItem,
+        /// the real `compute_root_node`, called now
+        pub recomputed: [u8; 32],
+        /// `Nomt::root()`: what `open` computed (or the last commit left)
+        pub reported: [u8; 32],
+    }
+
+    pub fn probe<T: HashAlgorithm>(nomt: &Nomt<T>) -> RootProbe {
+        let root_page = nomt
+            .page_cache
+            .get(ROOT_PAGE_ID)
+            .map(|(page, bucket)| (page.node(0), page.node(1), bucket.verif_index()));
+
+        // the loop of `compute_root_node`, recording what the iterator yields
+        let read_tx = nomt.store.read_transaction();
+        let mut iterator = read_tx.iterator(beatree::Key::default(), None);
+        let io_handle = nomt.store.io_pool().make_handle();
+        let mut blocked = 0;
+        let first = loop {
+            match iterator.next() {
+                None => break FirstItem::Nothing,
+                Some(beatree::iterator::IterOutput::Blocked) => {
+                    blocked += 1;
+                    let leaf = match read_tx.load_leaf_async(
+                        iterator.needed_leaves().next().unwrap(),
+                        &io_handle,
+                        0,
+                    ) {
+                        Ok(leaf_node) => leaf_node,
+                        Err(leaf_load) => {
+                            let complete_io = io_handle.recv().unwrap();
+                            leaf_load.finish(complete_io.command.kind.unwrap_buf())
+                        }
+                    };
+                    iterator.provide_leaf(leaf);
+                }
+                Some(beatree::iterator::IterOutput::Item(key_path, value)) => {
+                    break FirstItem::Inline(key_path, value.len(), T::hash_value(value));
+                }
+                Some(beatree::iterator::IterOutput::OverflowItem(key_path, value_hash, cell)) => {
+                    break FirstItem::Overflow(key_path, value_hash, cell.len());
+                }
+            }
+        };
+        drop(iterator);
+        drop(read_tx);
+
+        RootProbe {
+            root_page,
+            blocked,
+            first,
+            recomputed: crate::compute_root_node::<T>(&nomt.page_cache, &nomt.store),
+            reported: nomt.root().into_inner(),
+        }
+    }
+
+    /// The parameters the store of this handle runs with.
+    pub fn params<T: HashAlgorithm>(nomt: &Nomt<T>) -> OpenedParams {
+        crate::store::verif_open::opened_params(&nomt.store)
+    }
+
+    /// The number of page-cache shards (= the effective `commit_concurrency`).
+    pub fn shard_count<T: HashAlgorithm>(nomt: &Nomt<T>) -> usize {
+        nomt.page_cache.shard_count()
+    }
+}
